@@ -1,10 +1,12 @@
-// Unit `store`: witness of finding F-C29-save-failed-write on the REAL text of crates/cache/src/lib.rs (module `cache`, prepended
-// by unit.py::finding_witness exactly as for replay.rs). A manifest write that fails while on_disk_current is true leaves the flag
-// true although memory and disk now differ; the next unchanged re-scan then skips the write, so a reopen returns the entries of an
-// older build than the one the last save() call "saved". Prints `FOUND {..}` when reproduced, `NONE 1` otherwise.
+// Unit `store`: deterministic regression of F-C29-save-failed-write on the REAL text of crates/cache/src/lib.rs (module `cache`); this
+// file is concatenated in front of replay.rs by unit.py::replay and `failed_write_regression()` is called first by replay.rs::main.
+// Before the fix (/repo dc216b9) a manifest write that failed while on_disk_current was true left the flag true although memory and
+// disk differed; the next unchanged re-scan then skipped the write, and a reopen returned the entries of an OLDER build than the one the
+// last save() call (which looked successful: it skipped "because nothing changed") had in memory. Contract: after a failed write the
+// store is not current, so the next save writes. `FOUND {..}` = the old behaviour is back.
 
-fn main() {
-    let base = std::env::temp_dir().join(format!("vp_finding_{}", std::process::id()));
+fn failed_write_regression() {
+    let base = std::env::temp_dir().join(format!("vp_store_regr_{}", std::process::id()));
     let _ = std::fs::remove_dir_all(&base);
     let root = base.join("cache");
     // build 1: a.veryl with hash h1, saved
@@ -20,19 +22,15 @@ fn main() {
     std::fs::rename(&root, &away).unwrap();
     st.save();                                   // atomic_write fails: NamedTempFile::new_in(root) -> ENOENT
     std::fs::rename(&away, &root).unwrap();
-    println!("after the failed save: in memory entry(a).hash = {}", st.entry("a.veryl").unwrap().hash);
     // a warm re-scan in the same store object: nothing changed since the (failed) save
     st.keep("a.veryl");
-    st.save();                                   // skipped: on_disk_current is still true and next == manifest.files
-    println!("after the second save: in memory entry(a).hash = {}", st.entry("a.veryl").unwrap().hash);
+    st.save();                                   // must write: the failed save left the store not current (pre-fix: skipped)
     drop(st);
     let st = cache::Store::open(&root, "key");
     let on_disk = st.entry("a.veryl").unwrap().hash.clone();
-    println!("after reopen        : on disk   entry(a).hash = {}  (last save() call saved h2)", on_disk);
-    if on_disk == "h1" {
-        println!("FOUND {{\"witness\":\"F-C29-save-failed-write reproduced\",\"ops\":[\"open(key)\",\"put(a,h2,blob-2)\",\"save() with the manifest write failing\",\"keep(a)\",\"save() [skipped]\",\"drop; open(key)\"],\"actual\":\"entry(a).hash == h1\",\"expected\":\"h2\"}}");
-    } else {
-        println!("NONE 1");
-    }
     let _ = std::fs::remove_dir_all(&base);
+    if on_disk != "h2" {
+        println!("FOUND {{\"regression\":\"F-C29-save-failed-write\",\"ops\":[\"open(key) [current, a:h1]\",\"put(a,h2,blob-2)\",\"save() with the manifest write failing\",\"keep(a)\",\"save() [contract: write, the store is not current]\",\"drop; open(key)\"],\"check\":\"after reopen: entry(a).hash\",\"actual\":\"{}\",\"expected\":\"h2\"}}", on_disk);
+        std::process::exit(1);
+    }
 }
